@@ -73,3 +73,8 @@ fn check_for_broken_pipe_is_identity_otherwise() {
 	}
 	kani::cover!(!was_ok && k == 3, "StorageFull comes back as an error");
 }
+
+// (dropped attempt, session 4: a harness for exit_for_broken_pipe itself -- signal(SIGPIPE, SIG_DFL) BEFORE raise(SIGPIPE) -- needs
+// libc::signal / libc::raise replaced by recording probes.  Kani 0.68 resolves `#[kani::stub(libc::signal, ..)]` but still reports
+// "call to foreign \"C\" function `signal` is not currently supported"; with -Z c-ffi a #[no_mangle] Rust definition is not linked
+// ("missing definition").  The order of the two FFI calls stays outside every contract; seeded change C16-h is the witness.)
